@@ -355,7 +355,7 @@ PROGRAM_TB = [KERNEL, AXIOMS, HARNESS,
     "host operations: ZV/Model/Host.lean (C06)"]
 props["C01"] = {
     "harness": "c01", "level": "proof", "nontrivial": r"^(ck|zc) run ",
-    "timeout": {"quick": 1500, "thorough": 10800},
+    "timeout": {"quick": 2700, "thorough": 10800},
     "rule": PROGRAM_RULE,
     "explanation": "Type safety is proved on the model: the statement `accepted_never_stuck` (every program the ZCore checker accepts never reaches an undefined state of the mirrored CK machine, for every input and every finite prefix) is kept in ZV/Props/C01Statements.lean and proved in ZV/Props/C01.lean when listed under `theorems`. The mirror machine is tied to eval.rs by running both on the same linked programs (all executable repository programs and generated ones); the model checker is tied to the real checker by acceptance/rejection classes on generated programs and typed mutants; every accepted program is run under the stuck-state monitor.",
     "trusted_base": PROGRAM_TB,
